@@ -7,7 +7,7 @@
 (* the format transcription (CellCodec, RowsFormat, EventFormat, JsonSem,  *)
 (* GTID modules).  A failed monitor prints <<"MONFAIL", json>>.            *)
 (***************************************************************************)
-EXTENDS JsonSem, Json, GTIDText, EventFormat
+EXTENDS JsonSem, Json, GTIDText, JsonBinary
 
 G == INSTANCE GTIDSet WITH GDefects <- {}
 Ma == INSTANCE MariaGTID WITH MDefects <- {}
@@ -375,6 +375,7 @@ WriterOK(e) ==
          W(e, IsEvent(e.obs.raw, e.tst, 2, e.sidt, e.npt, e.flags, QueryBody(e.thread4, e.exec4, e.err2, e.vars, e.db, e.sql), Crc(e)))
     [] e.fn = "ev.fde" ->
          W(e, IsEvent(e.raw, e.tst, 15, e.sidt, e.npt, e.flags, FdeBody(e.srvver, e.create4, e.sizes, e.alg), TRUE))
+    [] e.fn = "json" -> W(e, e.bin = JsonbDoc(e.doc, e.forced))
     [] e.fn = "ev.hist" ->
          \* every event of a generated stream-family history
          LET body == CASE e.k = "fde" -> FdeBody(e.srvver, e.create4, e.sizes, e.alg)
